@@ -292,6 +292,9 @@ struct Driver<'a, RK: RadioKind, C: Probe> {
     failed_init: bool,
     baseline_failed: Vec<bool>,
     failed: Vec<bool>,
+    /// what the chip's sync word registers held right after the last successful
+    /// set_lora_sync_word (None: never set, or the last attempt failed)
+    sync_expected: Option<u16>,
 }
 
 impl<'a, RK: RadioKind, C: Probe> Driver<'a, RK, C> {
@@ -324,6 +327,7 @@ impl<'a, RK: RadioKind, C: Probe> Driver<'a, RK, C> {
                 Call::Listen => full(exec::run(lora.listen(868_100_000, Bandwidth::_125KHz), budget)),
                 Call::PrepCad => full(exec::run(lora.prepare_for_cad(mdl), budget)),
                 Call::Cad => full(exec::run(async { lora.cad(mdl).await.map(|_| ()) }, budget)),
+                // (the rig constructs the driver with the public sync word 0x3444: a value other than that, so that a stale copy shows)
                 Call::SetSync => full(exec::run(lora.set_lora_sync_word(0x1424), budget)),
                 Call::GetRssi => full(exec::run(async { lora.get_rssi().await.map(|_| ()) }, budget)),
                 Call::WaitIrq => full(exec::run(lora.wait_for_irq(), budget)),
@@ -366,6 +370,9 @@ impl<'a, RK: RadioKind, C: Probe> Driver<'a, RK, C> {
         self.col.state(fnv64(format!("{}|{}|{:x}|{}", after_name, chip_mode.name(), sh.chip.prog(), self.lora.verif_cold_start()).as_bytes()));
         if call == Call::Init {
             self.failed_init = !matches!(res, Res::Ok);
+        }
+        if call == Call::SetSync {
+            self.sync_expected = if matches!(res, Res::Ok) { Some(sh.chip.sync_value()) } else { None };
         }
         self.failed.push(res.failed());
         let tainted = self.failed_init && call != Call::Init;
@@ -425,6 +432,27 @@ impl<'a, RK: RadioKind, C: Probe> Driver<'a, RK, C> {
             });
         }
 
+        // ---- agreement after a successful call -------------------------------------------------------
+        // (the statement's heading: driver and chip never disagree; judged at the quiescent point after
+        // a call that returned Ok: a driver that records Standby or Sleep while the chip transmits,
+        // receives or scans, or Sleep on one side only)
+        if matches!(res, Res::Ok) && !tainted && call.in_statement() {
+            let chip_busy = matches!(chip_mode, Mode::Tx | Mode::Rx | Mode::Cad);
+            let bad = match after {
+                RadioMode::Standby => chip_busy || chip_mode == Mode::Sleep,
+                RadioMode::Sleep => chip_mode != Mode::Sleep,
+                _ => chip_mode == Mode::Sleep,
+            };
+            self.col.event("agreement_checked");
+            if bad {
+                self.found.push(Found {
+                    sig: format!("C14|lora|state-disagreement|{}|driver={}|chip={}", call.api(), after_name, chip_mode.name()),
+                    what: "after a call that returned Ok the mode the driver records and the chip's mode contradict each other".into(),
+                    detail: mk_detail(json!({"driver_mode": after_name, "chip_mode": chip_mode.name()})),
+                });
+            }
+        }
+
         // ---- (c) everything programmed before an operation starts --------------------------------
         for os in sh.chip.op_starts()[o0..].iter() {
             self.col.event(match os.kind {
@@ -442,6 +470,18 @@ impl<'a, RK: RadioKind, C: Probe> Driver<'a, RK, C> {
             let missing = os.missing & required;
             if sh.chip.losses() > self.losses_base {
                 self.col.event("op_starts_after_a_configuration_loss");
+            }
+            // "programmed again" means with what the application last asked for: after a loss the
+            // sync word on the chip must be the one set_lora_sync_word left there
+            if let Some(exp) = self.sync_expected {
+                if os.missing & item::SYNC == 0 && os.sync != exp && call.in_statement() && call != Call::Listen && os.kind != OpKind::Cad && !tainted && sh.chip.losses() > self.losses_base {
+                    self.col.event("alarm_c");
+                    self.found.push(Found {
+                        sig: format!("C14|lora|c-sync-word-value|{}|after-{}", fam, sh.chip.last_loss()),
+                        what: "after a reset / cold sleep the sync word was programmed again, but not with the value last set by set_lora_sync_word".into(),
+                        detail: mk_detail(json!({"operation": format!("{:?}", os.kind), "sync_registers_at_start": format!("{:#06x}", os.sync), "registers_after_set_lora_sync_word": format!("{:#06x}", exp)})),
+                    });
+                }
             }
             if missing != 0 && call.in_statement() {
                 self.col.event("alarm_c");
@@ -635,7 +675,7 @@ impl<'a> Visitor for RunPlan<'a> {
             sh.arm(plan.fault);
         }
         let losses_base = bus.borrow().chip.losses();
-        let mut d = Driver { var, lora, bus: bus.clone(), mdl, tx_pkt, rx_pkt, rxbuf: [0; 255], col, found: vec![], log: vec![], losses_base, failed_init: false, baseline_failed: plan.baseline_failed.clone(), failed: vec![] };
+        let mut d = Driver { var, lora, bus: bus.clone(), mdl, tx_pkt, rx_pkt, rxbuf: [0; 255], col, found: vec![], log: vec![], losses_base, failed_init: false, baseline_failed: plan.baseline_failed.clone(), failed: vec![], sync_expected: None };
         let plan_json = || {
             json!({
                 "chip": plan.var.name(),
